@@ -500,15 +500,15 @@ struct RunOut {
     uint64_t sig = 0;
 };
 
-static RunOut run_scenario(long ridx, int idx, long k, bool concurrent)
+static RunOut run_scenario(long ridx, int idx, long k, bool concurrent, bool std_flavour = false)
 {
     vrf::Round R(ridx);
     Scenario s = make_scenario(idx, concurrent);
-    R.program("{\"scenario\":" + vrf::jstr(s.name) + ",\"throw_at_invocation\":" + std::to_string(k) + ",\"concurrent_partner\":" + (concurrent ? "1" : "0") + "}");
+    R.program("{\"scenario\":" + vrf::jstr(s.name) + ",\"throw_at_invocation\":" + std::to_string(k) + ",\"exception_type\":\"" + (std_flavour ? "derived from std::exception" : "plain struct") + "\",\"concurrent_partner\":" + (concurrent ? "1" : "0") + "}");
     RunOut out;
     std::atomic<int> caught{0};
     R.spawn([&] {
-        vrf::fault_arm(s.mask, k);
+        vrf::fault_arm(s.mask, k, std_flavour);
         try {
             s.thrower();
         }
@@ -537,7 +537,7 @@ int main(int argc, char** argv)
 {
     vrf::init(argc, argv, "C20");
     bool concurrent = vrf::cfg.mode == "conc";
-    long reps = concurrent ? vrf::cfg.rounds : 1;
+    long reps = concurrent ? vrf::cfg.rounds : 2;  // every throw point is injected with both exception flavours
     long ridx = 0;
     uint64_t throw_points = 0, throws = 0;
     std::string ks = "{";
@@ -553,9 +553,9 @@ int main(int argc, char** argv)
             throw_points++;
             for (long rep = 0; rep < reps; rep++) {
                 if (vrf::want_round(ridx)) {
-                    RunOut o = run_scenario(ridx, idx, k, concurrent);
+                    RunOut o = run_scenario(ridx, idx, k, concurrent, (rep % 2) == 1);
                     if (o.threw) throws++;
-                    vrf::note(vrf::mixhash(vrf::mixhash(static_cast<uint64_t>(idx) * 100 + static_cast<uint64_t>(k), o.sig), o.threw), o.threw);
+                    vrf::note(vrf::mixhash(vrf::mixhash(static_cast<uint64_t>(idx) * 100 + static_cast<uint64_t>(k) + (rep % 2) * 50000, o.sig), o.threw), o.threw);
                 }
                 ridx++;
             }
